@@ -273,7 +273,7 @@ pub fn run_faults(run: &mut Run, snips: &[Snip], prelude: fn() -> Vec<Top>, dept
         prelude.retain(|t| match t {
             Top::Raw(text) => {
                 let name = text.split(" ::").next().unwrap_or("");
-                mentions(&sn0.fault, name) || mentions(&sn0.twin, name) || (name.starts_with("hop") && !name.starts_with("hop2_") && mentions(&sn0.fault, &format!("hop2_{}", &name[3..])))
+                mentions(&sn0.fault, name) || mentions(&sn0.twin, name) || (name == "FB" && (mentions(&sn0.fault, "FA") || mentions(&sn0.fault, "FE"))) || (name.starts_with("hop") && !name.starts_with("hop2_") && mentions(&sn0.fault, &format!("hop2_{}", &name[3..])))
             }
             _ => true,
         });
@@ -374,6 +374,13 @@ pub fn c03_snips() -> Vec<Snip> {
     out.push(g("apply-result-of-callback", Kind::E("int"), "(apply(\"a\", shout) + 1)", "(apply(1, idi) + 1)"));
     out.push(g("second-of-tuple", Kind::E("int"), "(second((1, \"a\")) + 1)", "(second((\"a\", 1)) + 1)"));
     out.push(g("same-elements", Kind::E("any"), "same([1], \"a\")", "same([1], 2)"));
+    // field / payload / parameter types that name a type declared further down the file
+    let fwd = |id: &str, kind: Kind, f: &str, t: &str| Snip::owned(format!("later-declared-type:{}", id), kind, f.to_string(), t.to_string());
+    out.push(fwd("blob-field", Kind::E("any"), "FA { b: 1 }", "FA { b: FB { x: 1 } }"));
+    out.push(fwd("variant-payload", Kind::E("any"), "(FE.V 1)", "(FE.V FB { x: 1 })"));
+    out.push(fwd("field-of-field", Kind::E("int"), "(FA { b: FB { x: 1 } }.b.nope + 1)", "(FA { b: FB { x: 1 } }.b.x + 1)"));
+    out.push(fwd("field-assignment", Kind::S, "w := FA { b: FB { x: 1 } }\nw.b = 2", "w := FA { b: FB { x: 1 } }\nw.b = FB { x: 2 }"));
+    out.push(fwd("recursive-enum-payload", Kind::E("any"), "(FL.Cons (1, 2))", "(FL.Cons (1, FL.Nil))"));
     out
 }
 
@@ -392,6 +399,11 @@ pub fn c03_prelude() -> Vec<Top> {
     v.push(Top::Raw("shout :: fn q: str -> str\n    q\nend".into()));
     v.push(Top::Raw("second :: fn t: (*A, *B) -> *B\n    t[1]\nend".into()));
     v.push(Top::Raw("same :: fn l: [*T], x: *T -> *T\n    x\nend".into()));
+    // FA and FE name FB before FB is declared; FL names itself
+    v.push(Top::Raw("FA :: blob { b: FB }".into()));
+    v.push(Top::Raw("FE :: enum\n    V FB,\n    W,\nend".into()));
+    v.push(Top::Raw("FB :: blob { x: int }".into()));
+    v.push(Top::Raw("FL :: enum\n    Cons (int, FL),\n    Nil,\nend".into()));
     v
 }
 
